@@ -144,7 +144,7 @@ func (eng) Cases(seed uint64, tier string) []core.CaseDesc {
 	}
 	// a canceled client mutation whose reply carries a local change not pushed yet
 	for i := 0; i < 4; i++ {
-		add(cfg{Kind: "cancelreply", PushMs: 100, NoSchema: i%2 == 1, Shallow: i/2 == 1}, seed*97+uint64(i))
+		add(cfg{Kind: "cancelreply", PushMs: 500, NoSchema: i%2 == 1, Shallow: i/2 == 1}, seed*97+uint64(i))
 	}
 	// a client Remove answered while a local Remove of the same state is in flight
 	for i := 0; i < 2; i++ {
@@ -731,7 +731,7 @@ func runHsWindow(res *core.CaseResult, c core.CaseDesc, cf cfg, r *rand.Rand, sr
 // carries the local change; afterwards the source is quiet.
 func runCancelReply(res *core.CaseResult, c core.CaseDesc, cf cfg, r *rand.Rand, src *am.Machine, p *rpcloop.Pair) {
 	nm := p.C.NetMach
-	for round := 0; round < 6; round++ {
+	for round := 0; round < 4; round++ {
 		if src.Is1("A") {
 			src.Remove1("A", nil)
 		}
@@ -739,7 +739,13 @@ func runCancelReply(res *core.CaseResult, c core.CaseDesc, cf cfg, r *rand.Rand,
 			res.Inconclusive = why
 			return
 		}
-		// local change(s), not pushed yet
+		// a first local change is pushed at once (the last push is long ago);
+		// wait until the mirror shows it, so that the push interval starts now
+		src.Add1("B", nil)
+		for i := 0; i < 2000 && compare(src, p.C, cf.Shallow) != ""; i++ {
+			time.Sleep(time.Millisecond)
+		}
+		// further local change(s): throttled, not pushed before the interval is over
 		n := 1 + r.IntN(3)
 		for i := 0; i < n; i++ {
 			st := []string{"B", "C", "D"}[r.IntN(3)]
